@@ -997,6 +997,14 @@ void build_eof_action(void)
 	int i;
 	char action_text[MAXLINE];
 
+	/* A preceding '|' rule shares this action and needs its rule set-up,
+	 * which goes in front of all the end-of-file labels: between two of
+	 * them it would also be executed at end of file in the first one's
+	 * start condition.
+	 */
+	if (previous_continued_action /* && previous action was regular */)
+		add_action("YY_RULE_SETUP\n");
+
 	for ( i = 1; i <= scon_stk_ptr; ++i )
 		{
 		if ( sceof[scon_stk[i]] )
@@ -1007,9 +1015,6 @@ void build_eof_action(void)
 		else
 			{
 			sceof[scon_stk[i]] = true;
-
-			if (previous_continued_action /* && previous action was regular */)
-				add_action("YY_RULE_SETUP\n");
 
 			snprintf( action_text, sizeof(action_text), "M4_HOOK_EOF_STATE_CASE_ARM(%s)\n",
 				scname[scon_stk[i]] );
